@@ -40,6 +40,10 @@ type ResponseRecorder struct {
 	status   int
 	size     int
 	start    time.Time
+
+	// committed is set once the status of the response is settled:
+	// by the first final WriteHeader, or by a Write or Flush before it
+	committed bool
 }
 
 // NewResponseRecorder makes and returns a new ResponseRecorder.
@@ -60,14 +64,27 @@ func (r *ResponseRecorder) WriteHeader(status int) {
 	// an informational response (such as 103 Early Hints) is
 	// not the status of the response: the final one follows
 	if status < 100 || status >= 200 || status == http.StatusSwitchingProtocols {
-		r.status = status
+		// a later call changes nothing on the wire (net/http ignores
+		// it), so it must not change the recorded status either
+		if !r.committed {
+			r.status = status
+		}
+		r.committed = true
 	}
 	r.ResponseWriterWrapper.WriteHeader(status)
+}
+
+// Flush commits the response header with the status recorded so far
+// and calls the underlying ResponseWriter's Flush method.
+func (r *ResponseRecorder) Flush() {
+	r.committed = true
+	r.ResponseWriterWrapper.Flush()
 }
 
 // Write is a wrapper that records the size of the body
 // that gets written.
 func (r *ResponseRecorder) Write(buf []byte) (int, error) {
+	r.committed = true
 	n, err := r.ResponseWriterWrapper.Write(buf)
 	if err == nil {
 		r.size += n
